@@ -228,6 +228,64 @@ class _Builder:
 
         return interp.explore(setup)
 
+    def normalise_token_text(self, rule: LexRule, paths: List[PathResult]):
+        """`text.removeprefix(p)` / `text.removesuffix(s)` applied to the matched text of a rule whose every word starts with p /
+        ends with s (and is at least that long) are the slices `text[len(p):]` / `text[:-len(s)]`: rewrite them, so that rules
+        reading the stored text see one normal form."""
+        from . import rx
+        import re as _re
+        from .values import NewNode as _NN
+        cache: Dict[Tuple[str, str], bool] = {}
+
+        def always(kind: str, lit: str) -> bool:
+            if (kind, lit) not in cache:
+                try:
+                    pat = (_re.escape(lit) + r"[\s\S]*") if kind == "removeprefix" else (r"[\s\S]*" + _re.escape(lit))
+                    alpha = rx.Alphabet.for_patterns([rule.pattern, pat], self.g.reflags, full=False)
+                    lex = rx.compile_rule(rule.pattern, self.g.reflags, alpha).dfa
+                    want = rx.compile_dfa(pat, self.g.reflags, alpha)
+                    cache[(kind, lit)] = rx.difference_witness(lex, want, alpha) is None
+                except Exception:
+                    cache[(kind, lit)] = False
+            return cache[(kind, lit)]
+
+        def fix(val):
+            if not (isinstance(val, Str) and len(val.parts) == 1 and val.parts[0][0] == "dyn" and isinstance(val.parts[0][1], Sym)
+                    and val.parts[0][1].op == "toktext"):
+                return val
+            trs = list(val.parts[0][2])
+            lo = hi = None
+            i = 0
+            seen = set()
+            while i < len(trs) and trs[i][0] in ("removeprefix", "removesuffix") and trs[i][0] not in seen and trs[i][1] and always(trs[i][0], trs[i][1]):
+                seen.add(trs[i][0])
+                if trs[i][0] == "removeprefix":
+                    lo = len(trs[i][1])
+                else:
+                    hi = -len(trs[i][1])
+                i += 1
+            if not i:
+                return val
+            if len(seen) == 2:
+                # both ends removed: the word must hold both without overlap
+                both = _re.escape([t for t in trs[:i] if t[0] == "removeprefix"][0][1]) + r"[\s\S]*" + _re.escape([t for t in trs[:i] if t[0] == "removesuffix"][0][1])
+                try:
+                    alpha = rx.Alphabet.for_patterns([rule.pattern, both], self.g.reflags, full=False)
+                    if rx.difference_witness(rx.compile_rule(rule.pattern, self.g.reflags, alpha).dfa, rx.compile_dfa(both, self.g.reflags, alpha), alpha) is not None:
+                        return val
+                except Exception:
+                    return val
+            return Str([("dyn", val.parts[0][1], (("slice", lo, hi, None),) + tuple(trs[i:]))])
+
+        for p in paths:
+            if p.outcome == "return" and isinstance(p.value, TokV):
+                v = p.value.attrs.get("value")
+                if isinstance(v, _NN):
+                    for k, fv in list(v.fields.items()):
+                        v.fields[k] = fix(fv)
+                elif isinstance(v, Str):
+                    p.value.attrs["value"] = fix(v)
+
     def run_production(self, p: Production) -> List[PathResult]:
         interp = Interp(self.repo, self.schema, self.kenv, summaries=self.summaries)
         ci = self.par_ci
@@ -262,6 +320,7 @@ class _Builder:
                 self.token_shapes[rule.name] = {("scalar", "str")}
                 continue
             paths = self.run_token(rule)
+            self.normalise_token_text(rule, paths)
             token_paths[rule.name] = paths
             shapes: Set[Shape] = set()
             for r in paths:
